@@ -74,7 +74,7 @@ theorem qfaithful (PB : Rat → Prop) (hPB : ∀ b, PB b → 0 < b) (QA : QFaith
     show ∃ s' k, Boost.skipToQuality A m q = _ ∧ _
     unfold Boost.skipToQuality
     have hpos := hPB _ h.2
-    have hb0 : ¬ m.boost = 0 := by intro e; rw [e] at hpos; exact absurd hpos (by decide)
+    have hb0 : ¬ m.boost ≤ 0 := by grind
     have hne' : dA m.child ≠ [] := by intro e; apply hne; simp [e, scale]
     obtain ⟨c, k, g1, g2, g3, g4, g5, g6⟩ := QA.skipQ m.child (q / m.boost) h.1 hne'
     refine ⟨{ m with child := c }, k, by simp [hb0, g1, bind, Except.bind]; rfl, ⟨g2, h.2⟩, ?_, g4, ?_, by simp only [g6]⟩
@@ -186,7 +186,7 @@ theorem qfaithful (PB : Rat → Prop) (hPB : ∀ b, PB b → 0 < b) (QA : QFaith
     show ∃ s' k, Filter.skipToQuality A m q = _ ∧ _
     unfold Filter.skipToQuality
     have hpos := hPB _ h.2
-    have hb0 : ¬ m.boost = 0 := by intro e; rw [e] at hpos; exact absurd hpos (by decide)
+    have hb0 : ¬ m.boost ≤ 0 := by grind
     have hne' : dA m.child ≠ [] := by intro e; apply hne; simp [e, keepIds, scale]
     obtain ⟨c, k, g1, g2, g3, g4, g5, g6⟩ := QA.skipQ m.child (q / m.boost) h.1.1 hne'
     obtain ⟨m', f1, e1, e2, e3, f2, f3, f4, f5, f6, f7⟩ := findNext_spec QA.curQ { m with child := c } g2
